@@ -530,7 +530,7 @@ def scanrun_validate(ctx, pid, label="scanrun"):
     with concurrent.futures.ThreadPoolExecutor(max_workers=8) as ex:
         res = list(ex.map(one, runs))
     first = next((e for e, (ok, _i) in zip(runs, res) if ok and len(e["probes"]) >= 2), None)
-    if first is not None and os.environ.get("VF_SELFTEST", "0") == "1" and "ScanRunTrace" not in getattr(ctx, "_selftested", set()):
+    if first is not None and os.environ.get("VF_SELFTEST", "1") == "1" and "ScanRunTrace" not in getattr(ctx, "_selftested", set()):
         ev = scanrun_events(dict(first, probes=first["probes"][1:]))
         p = os.path.join(ctx.scratch, "%s-selftest.ndjson" % label)
         vf.write_ndjson(p, ev)
